@@ -949,7 +949,7 @@ func c15Run(c *Ctx) {
 	for k := 0; k < c.N(5, 50); k++ {
 		h.runV(dm, &c15Val{kind: 'n'}, c15Rest(r), true)
 	}
-	h.runV(dm, c15IntS(-5), c15Rest(r), false)                                 // decodes to nil, not to the value
+	h.runV(dm, c15IntS(-5), c15Rest(r), false) // decodes to nil, not to the value
 	h.runV(dm, &c15Val{kind: 'b', bs: []byte("abc")}, c15Rest(r), false)
 	for l := 0; l < 4; l++ {
 		h.runD(dm, c15Garbage(r, l))
